@@ -54,6 +54,7 @@ pub fn gen(rng: &mut Rng, tier: Tier, idx: u64) -> Case {
         rl_width: if rng.chance(1, 4) { rng.urange(2, 4) as u8 } else { 0 },
         plen_width: 0,
         stray_will_retain: false,
+        pvar_width: 0,
     };
     let enc = refcodec::ref_encode(&a, sw.fam, &c.style);
     let bounds = span_bounds(&enc.spans);
